@@ -1,8 +1,8 @@
-\* C15: the timer chain as the code has it must violate NoImmortalTimerAny (TLC has to object: the model predicts the leak)
+\* C15: the timer chain with a startTimer that arms unconditionally (the code as it was found) must violate NoImmortalTimerAny (TLC has to object: the model predicts the leak)
 CONSTANTS
   MaxLen = 1
   MaxTicks = 2
-  Designs = {"extracted"}
+  Designs = {"unguarded"}
   Emit = FALSE
   Holds = {"free"}
   Late = FALSE
